@@ -838,19 +838,51 @@ private theorem gaps_sorted_pair (m : Rat) : ∀ l : List Rat, l.Pairwise (· < 
       · exact absurd (lt_trans (hx a ha') hab) (lt_irrefl _)
       · exact ih a ha' b hb' hab
 
-/-- **it fails loudly when two anchors are closer than the minimum** — `_partial`: the converse of the last
-clause of `filterMesh_spec`, proved for preference "bottom" (for "top" it is covered by the correspondence and
-the oracle only). -/
-theorem filterMesh_refuses_close_anchors_partial (pts : List Rat) (m : Rat) (anch : List Rat) (a b : Rat)
+private theorem gaps_sorted_pair_desc (m : Rat) : ∀ l : List Rat, l.Pairwise (· > ·) → GapsOK m l →
+    ∀ a ∈ l, ∀ b ∈ l, a < b → m ≤ b - a
+  | [], _, _ => by intro a ha; cases ha
+  | [x], _, _ => by
+    intro a ha b hb hab
+    rw [List.mem_singleton.mp ha, List.mem_singleton.mp hb] at hab
+    exact absurd hab (lt_irrefl _)
+  | x :: y :: t, hs, hg => by
+    obtain ⟨hx, hs'⟩ := List.pairwise_cons.mp hs
+    have ih := gaps_sorted_pair_desc m (y :: t) hs' hg.2
+    have hxy : y < x := hx y List.mem_cons_self
+    have hgap : m ≤ x - y := by
+      have := hg.1; unfold rabs at this; split_ifs at this <;> linarith
+    intro a ha b hb hab
+    rcases List.mem_cons.mp hb with rfl | hb'
+    · rcases List.mem_cons.mp ha with rfl | ha'
+      · exact absurd hab (lt_irrefl _)
+      · rcases List.mem_cons.mp ha' with rfl | ha''
+        · exact hgap
+        · have := (List.pairwise_cons.mp hs').1 a ha''
+          linarith
+    · rcases List.mem_cons.mp ha with rfl | ha'
+      · exact absurd (lt_trans hab (hx b hb')) (lt_irrefl _)
+      · exact ih a ha' b hb' hab
+
+/-- **it fails loudly when two anchors are closer than the minimum** (the converse of the last clause of
+`filterMesh_spec`), for both preferences. -/
+theorem filterMesh_refuses_close_anchors (pts : List Rat) (m : Rat) (anch : List Rat) (top : Bool) (a b : Rat)
     (ha : a ∈ pts) (hb : b ∈ pts) (haa : a ∈ anch) (hba : b ∈ anch) (hab : a < b) (hclose : b - a < m) :
-    filterMesh pts m anch false = .anchors := by
-  obtain ⟨h1, h2, _⟩ := filterMesh_spec pts m anch false
-  cases hr : filterMesh pts m anch false with
+    filterMesh pts m anch top = .anchors := by
+  obtain ⟨h1, h2, _⟩ := filterMesh_spec pts m anch top
+  cases hr : filterMesh pts m anch top with
   | ok out =>
     obtain ⟨s1, _, s3, s4⟩ := h2 out hr
-    simp only [Bool.false_eq_true, if_false] at s4
-    have := gaps_sorted_pair m out s1 s4 a (s3 a haa ha) b (s3 b hba hb) hab
-    linarith
+    cases top with
+    | false =>
+      simp only [Bool.false_eq_true, if_false] at s4
+      have := gaps_sorted_pair m out s1 s4 a (s3 a haa ha) b (s3 b hba hb) hab
+      linarith
+    | true =>
+      simp only [if_true] at s4
+      have hd : out.reverse.Pairwise (· > ·) := List.pairwise_reverse.mpr s1
+      have := gaps_sorted_pair_desc m out.reverse hd s4 a (List.mem_reverse.mpr (s3 a haa ha)) b
+        (List.mem_reverse.mpr (s3 b hba hb)) hab
+      linarith
   | anchors => rfl
   | fuel => exact absurd hr h1
 
@@ -873,12 +905,13 @@ private theorem dig2 (p q x : Rat) (hpq : p < q) :
     · have : p ≤ x := not_lt.mp h1
       simp [List.filter, not_lt.mp h2, *]
 
-/-- the excluded point of `resample_sum_conserved_partial`, for EVERY output cell strictly inside one input
-cell (known finding F25): both trim fractions are multiplied onto the same value, and the total is not
-conserved whenever the value is non-zero. -/
+/-- **an output cell strictly inside one input cell gets its covered share** `(b − a)/(q − p)·y` (the case
+repaired by the F25 fix: both trims act on the same value; the code now applies `fr + fl − 1`), and the
+total over the three output cells is `y`. -/
 theorem resample_interior_cell (p q a b y : Rat) (h1 : p < a) (h2 : a < b) (h3 : b < q) :
     resample [p, q] [y] [p, a, b, q] false
-      = some [y * ((a - p) / (q - p)), y * ((b - p) / (q - p)) * ((q - a) / (q - p)), y * ((q - b) / (q - p))] := by
+      = some [y * ((a - p) / (q - p)), y * ((b - a) / (q - p)), y * ((q - b) / (q - p))] ∧
+    (resample [p, q] [y] [p, a, b, q] false).map List.sum = some ([y].sum) := by
   have hpq : p < q := by linarith
   have hab : a < q := lt_trans h2 h3
   have hpb : p < b := lt_trans h1 h2
@@ -891,63 +924,868 @@ theorem resample_interior_cell (p q a b y : Rat) (h1 : p < a) (h2 : a < b) (h3 :
   have n3 : b - p ≠ 0 := sub_ne_zero.mpr (ne_of_gt hpb)
   have n4 : q - a ≠ 0 := sub_ne_zero.mpr (ne_of_gt hab)
   have n5 : q - b ≠ 0 := sub_ne_zero.mpr (ne_of_gt h3)
-  simp [resample, cellsOf, resampleCell, e1, e2, e3, e4, pySlice, pyIndex, scaleLast, scaleFirst]
-  simp [hab, h3, h1, hpb, n1, n2, n3, n4, n5]
+  have hval : resample [p, q] [y] [p, a, b, q] false
+      = some [y * ((a - p) / (q - p)), y * ((b - a) / (q - p)), y * ((q - b) / (q - p))] := by
+    simp [resample, cellsOf, resampleCell, resampleBody, e1, e2, e3, e4, pySlice, pyIndex, scaleLast, scaleFirst]
+    simp [hab, h3, h1, hpb, n1, n2, n3, n4, n5]
+    field_simp
+    ring
+  refine ⟨hval, ?_⟩
+  rw [hval]
+  simp only [Option.map_some, List.sum_cons, List.sum_nil, Option.some.injEq]
+  field_simp
+  ring
 
-theorem resample_interior_cell_not_conserved (p q a b y : Rat) (h1 : p < a) (h2 : a < b) (h3 : b < q) (hy : y ≠ 0) :
-    (resample [p, q] [y] [p, a, b, q] false).map List.sum ≠ some ([y].sum) := by
-  rw [resample_interior_cell p q a b y h1 h2 h3]
-  simp only [Option.map_some, List.sum_cons, List.sum_nil, ne_eq, Option.some.injEq]
-  have hpq : 0 < q - p := by linarith
-  intro h
-  have : y * ((a - p) * (q - p) + (b - p) * (q - a) + (q - b) * (q - p)) = y * (q - p) ^ 2 := by
-    have h' := h
-    field_simp at h'
-    linarith
-  have h2' : (a - p) * (q - p) + (b - p) * (q - a) + (q - b) * (q - p) = (q - p) ^ 2 := mul_left_cancel₀ hy this
-  nlinarith [mul_pos (sub_pos.mpr h1) (sub_pos.mpr h3)]
-
-/-- the recorded witness of F25: total 5075/289 ≈ 17.56 instead of 17 -/
+/-- the recorded witness of (repaired) F25: the total is now 17 -/
 example : (resample [0, 7/2, 9, 35/2, 37/2] [6, 11/2, 6, -1/2] [0, 3, 11/2, 21/2, 13, 37/2] false).map List.sum
-    = some (5075/289) := by decide +kernel
+    = some 17 := by decide +kernel
 
-/-- **resampling conserves the total (avg = false) and gives the length-weighted mean (avg = true)** —
-`_partial`: proved for the two-input-cell family (an output boundary anywhere inside the first cell, and the
-coarsening onto one cell), not for arbitrary meshes; every other input is covered by the correspondence
-and the implementation-side oracle only. No output cell lies strictly inside an input cell here. -/
-theorem resample_sum_conserved_partial (p q r a y1 y2 : Rat) (h1 : p < a) (h2 : a < q) (h3 : q < r) :
-    resample [p, q, r] [y1, y2] [p, a, r] false
-        = some [y1 * ((a - p) / (q - p)), y1 * ((q - a) / (q - p)) + y2] ∧
-    y1 * ((a - p) / (q - p)) + (y1 * ((q - a) / (q - p)) + y2) = y1 + y2 ∧
-    resample [p, q, r] [y1, y2] [p, r] false = some [y1 + y2] := by
-  have hpq : p < q := lt_trans h1 h2
-  have hpr : p < r := lt_trans hpq h3
-  have har : a < r := lt_trans h2 h3
-  have n1 : q - p ≠ 0 := sub_ne_zero.mpr (ne_of_gt hpq)
-  have n2 : a - p ≠ 0 := sub_ne_zero.mpr (ne_of_gt h1)
-  have n3 : q - a ≠ 0 := sub_ne_zero.mpr (ne_of_gt h2)
-  have d : ∀ x, digitize [p, q, r] x = (if p ≤ x then 1 else 0) + (if q ≤ x then 1 else 0) + (if r ≤ x then 1 else 0) := by
-    intro x; unfold digitize
-    by_cases c1 : p ≤ x <;> by_cases c2 : q ≤ x <;> by_cases c3 : r ≤ x <;> simp [List.filter, c1, c2, c3]
-  have e1 : digitize [p, q, r] p = 1 := by rw [d]; simp [not_le.mpr hpq, not_le.mpr hpr]
-  have e2 : digitize [p, q, r] a = 1 := by rw [d]; simp [le_of_lt h1, not_le.mpr h2, not_le.mpr har]
-  have e3 : digitize [p, q, r] r = 3 := by rw [d]; simp [le_of_lt hpr, le_of_lt h3]
-  refine ⟨?_, ?_, ?_⟩
-  · simp [resample, cellsOf, resampleCell, e1, e2, e3, pySlice, pyIndex, scaleLast, scaleFirst]
-    simp [h1, h2, n1, n2, n3]
-  · field_simp; ring
-  · simp [resample, cellsOf, resampleCell, e1, e3, pySlice, pyIndex, scaleLast, scaleFirst]
+/-! #### general meshes -/
 
-theorem resample_avg_is_mean_partial (p q r y1 y2 : Rat) (h1 : p < q) (h2 : q < r) :
-    resample [p, q, r] [y1, y2] [p, r] true = some [(y1 * (q - p) + y2 * (r - q)) / (r - p)] := by
-  have hpr : p < r := lt_trans h1 h2
-  have d : ∀ x, digitize [p, q, r] x = (if p ≤ x then 1 else 0) + (if q ≤ x then 1 else 0) + (if r ≤ x then 1 else 0) := by
-    intro x; unfold digitize
-    by_cases c1 : p ≤ x <;> by_cases c2 : q ≤ x <;> by_cases c3 : r ≤ x <;> simp [List.filter, c1, c2, c3]
-  have e1 : digitize [p, q, r] p = 1 := by rw [d]; simp [not_le.mpr h1, not_le.mpr hpr]
-  have e3 : digitize [p, q, r] r = 3 := by rw [d]; simp [le_of_lt hpr, le_of_lt h2]
-  have n' : r - p ≠ 0 := sub_ne_zero.mpr (ne_of_gt hpr)
-  simp [resample, cellsOf, resampleCell, e1, e3, pySlice, pyIndex, diffs, n']
+private theorem pySlice_nat {β : Type} (l : List β) (i j : Nat) :
+    pySlice l (i : Int) (j : Int) = (l.drop (min i l.length)).take (min j l.length - min i l.length) := by
+  unfold pySlice
+  simp only []
+  have hi : ¬ ((i : Int) < 0) := by omega
+  have hj : ¬ ((j : Int) < 0) := by omega
+  rw [if_neg hi, if_neg hj]
+  have e1 : (if (l.length : Int) < (i : Int) then (l.length : Int) else (i : Int)).toNat = min i l.length := by
+    split_ifs with h <;> simp <;> omega
+  have e2 : (if (l.length : Int) < (j : Int) then (l.length : Int) else (j : Int)).toNat = min j l.length := by
+    split_ifs with h <;> simp <;> omega
+  rw [e1, e2]
+
+private theorem pyIndex_nat {β : Type} (l : List β) (i : Nat) : pyIndex l (i : Int) = l[i]? := by
+  unfold pyIndex
+  simp
+
+private theorem body_shift (x0 x1 : Rat) (xs : List Rat) (y0 : Rat) (ys : List Rat) (avg : Bool) (a b : Rat) (k m : Nat) :
+    resampleBody (x0 :: x1 :: xs) (y0 :: ys) avg a b ((k + 2 : Nat) : Int) ((m + 2 : Nat) : Int)
+      = resampleBody (x1 :: xs) ys avg a b ((k + 1 : Nat) : Int) ((m + 1 : Nat) : Int) := by
+  unfold resampleBody
+  have c1 : ((k + 2 : Nat) : Int) - 1 = ((k + 1 : Nat) : Int) := by push_cast; ring
+  have c2 : ((m + 2 : Nat) : Int) + 1 = ((m + 3 : Nat) : Int) := by push_cast; ring
+  have c3 : ((m + 2 : Nat) : Int) - 1 = ((m + 1 : Nat) : Int) := by push_cast; ring
+  have d1 : ((k + 1 : Nat) : Int) - 1 = ((k : Nat) : Int) := by push_cast; ring
+  have d2 : ((m + 1 : Nat) : Int) + 1 = ((m + 2 : Nat) : Int) := by push_cast; ring
+  have d3 : ((m + 1 : Nat) : Int) - 1 = ((m : Nat) : Int) := by push_cast; ring
+  have c4 : (((x0 :: x1 :: xs).length : Nat) : Int) - 1 = ((xs.length + 1 : Nat) : Int) := by
+    simp
+  have d4 : (((x1 :: xs).length : Nat) : Int) - 1 = ((xs.length : Nat) : Int) := by
+    simp
+  have c5 : (if ((m + 2 : Nat) : Int) ≤ ((xs.length + 1 : Nat) : Int) then ((m + 2 : Nat) : Int) else ((xs.length + 1 : Nat) : Int))
+      = ((min (m + 2) (xs.length + 1) : Nat) : Int) := by
+    split_ifs with h <;> congr 1 <;> omega
+  have d5 : (if ((m + 1 : Nat) : Int) ≤ ((xs.length : Nat) : Int) then ((m + 1 : Nat) : Int) else ((xs.length : Nat) : Int))
+      = ((min (m + 1) xs.length : Nat) : Int) := by
+    split_ifs with h <;> congr 1 <;> omega
+  have c6 : (((k + 2 : Nat) : Int) = ((m + 2 : Nat) : Int)) ↔ (((k + 1 : Nat) : Int) = ((m + 1 : Nat) : Int)) := by
+    constructor <;> intro h <;> omega
+  simp only [c1, c2, c3, d1, d2, d3, c4, d4, c5, d5, pySlice_nat, pyIndex_nat, c6]
+  have m1 : min (m + 2) (xs.length + 1) = min (m + 1) xs.length + 1 := by omega
+  simp only [List.length_cons, Nat.add_min_add_right, List.drop_succ_cons, List.getElem?_cons_succ, m1,
+    Nat.add_sub_add_right]
+  have m2 : min (m + 2) (ys.length + 1) = min (m + 1) ys.length + 1 := by omega
+  have m3 : min (m + 3) (xs.length + 1 + 1) = min (m + 2) (xs.length + 1) + 1 := by omega
+  simp only [m2, m3, Nat.add_sub_add_right]
+  simp only [m1]
+
+/-- overlap length of the output cell `[a, b]` with the input bin `[p, q]` -/
+def ovr (a b p q : Rat) : Rat := rmax 0 (rmin q b - rmax p a)
+
+/-- the covered share of every input bin: Σ_j y_j · |[a,b] ∩ bin_j| / |bin_j| -/
+def cellRec (a b : Rat) : List Rat → List Rat → Rat
+  | x0 :: x1 :: xs, y :: ys => y * (ovr a b x0 x1 / (x1 - x0)) + cellRec a b (x1 :: xs) ys
+  | _, _ => 0
+
+def dN (X : List Rat) (a : Rat) : Nat := (X.filter (fun x => decide (x ≤ a))).length
+
+private theorem digitize_eq (X : List Rat) (a : Rat) : digitize X a = ((dN X a : Nat) : Int) := rfl
+
+private theorem dN_cons_le (x0 : Rat) (X : List Rat) (a : Rat) (h : x0 ≤ a) : dN (x0 :: X) a = dN X a + 1 := by
+  simp [dN, List.filter_cons, h]
+
+private theorem dN_all_gt (X : List Rat) (a : Rat) (h : ∀ x ∈ X, a < x) : dN X a = 0 := by
+  unfold dN
+  rw [List.length_eq_zero_iff, List.filter_eq_nil_iff]
+  intro x hx; simp [not_le.mpr (h x hx)]
+
+private theorem dN_all_le (X : List Rat) (a : Rat) (h : ∀ x ∈ X, x ≤ a) : dN X a = X.length := by
+  unfold dN
+  congr 1
+  rw [List.filter_eq_self]
+  intro x hx; simp [h x hx]
+
+private theorem dN_append (X Z : List Rat) (a : Rat) : dN (X ++ Z) a = dN X a + dN Z a := by
+  simp [dN, List.filter_append]
+
+/-- bins entirely right of the cell contribute nothing -/
+private theorem cellRec_zero (a b : Rat) : ∀ (X Y : List Rat), X.Pairwise (· < ·) → (∀ x ∈ X, b ≤ x) → cellRec a b X Y = 0
+  | [], _, _, _ => by simp [cellRec]
+  | [_], _, _, _ => by simp [cellRec]
+  | _ :: _ :: _, [], _, _ => by simp [cellRec]
+  | x0 :: x1 :: xs, y :: ys, hs, hb => by
+    have h0 := hb x0 (by simp)
+    have h1 := hb x1 (by simp)
+    have h01 : x0 < x1 := (List.pairwise_cons.mp hs).1 x1 (by simp)
+    have ih := cellRec_zero a b (x1 :: xs) ys (List.pairwise_cons.mp hs).2 (fun x hx => hb x (List.mem_cons_of_mem _ hx))
+    have : ovr a b x0 x1 = 0 := by unfold ovr rmax rmin; split_ifs <;> linarith
+    simp [cellRec, ih, this]
+
+/-- split a sorted list at `b` -/
+private theorem split_sorted (b : Rat) : ∀ T : List Rat, T.Pairwise (· < ·) →
+    ∃ Mp R, T = Mp ++ R ∧ (∀ x ∈ Mp, x ≤ b) ∧ (∀ x ∈ R, b < x)
+  | [], _ => ⟨[], [], rfl, by simp, by simp⟩
+  | t :: T, hs => by
+    obtain ⟨ht, hT⟩ := List.pairwise_cons.mp hs
+    by_cases h : t ≤ b
+    · obtain ⟨Mp, R, e, h1, h2⟩ := split_sorted b T hT
+      refine ⟨t :: Mp, R, by rw [e]; rfl, ?_, h2⟩
+      intro x hx; rcases List.mem_cons.mp hx with rfl | hx
+      · exact h
+      · exact h1 x hx
+    · refine ⟨[], t :: T, rfl, by simp, ?_⟩
+      intro x hx; rcases List.mem_cons.mp hx with rfl | hx
+      · exact not_le.mp h
+      · exact lt_trans (not_le.mp h) (ht x hx)
+
+private theorem ovr_full (a b p q : Rat) (h1 : a ≤ p) (h2 : q ≤ b) (h3 : p < q) : ovr a b p q / (q - p) = 1 := by
+  have : ovr a b p q = q - p := by unfold ovr rmax rmin; split_ifs <;> linarith
+  rw [this]; exact div_self (sub_ne_zero.mpr (ne_of_gt h3))
+
+/-- bins fully inside the cell contribute their whole value -/
+private theorem spec_mid (a b p : Rat) (Rr Yr : List Rat) : ∀ (M YM : List Rat), M.length = YM.length →
+    (M ++ p :: Rr).Pairwise (· < ·) → (∀ x ∈ M, a ≤ x) → (∀ x ∈ M ++ [p], x ≤ b) →
+    cellRec a b (M ++ p :: Rr) (YM ++ Yr) = YM.sum + cellRec a b (p :: Rr) Yr
+  | [], [], _, _, _, _ => by simp
+  | [], _ :: _, h, _, _, _ => by simp at h
+  | _ :: _, [], h, _, _, _ => by simp at h
+  | m0 :: M', y :: YM', hl, hs, ha, hb => by
+    have hl' : M'.length = YM'.length := by simpa using hl
+    have hs' := (List.pairwise_cons.mp (by simpa using hs : (m0 :: (M' ++ p :: Rr)).Pairwise (· < ·))).2
+    have ih := spec_mid a b p Rr Yr M' YM' hl' hs' (fun x hx => ha x (List.mem_cons_of_mem _ hx))
+      (fun x hx => hb x (by simp at hx ⊢; tauto))
+    have hhead : ∀ x ∈ M' ++ p :: Rr, m0 < x :=
+      (List.pairwise_cons.mp (by simpa using hs : (m0 :: (M' ++ p :: Rr)).Pairwise (· < ·))).1
+    cases hM : M' with
+    | nil =>
+      subst hM
+      have hp : m0 < p := hhead p (by simp)
+      have := ovr_full a b m0 p (ha m0 (by simp)) (hb p (by simp)) hp
+      simp only [List.nil_append, List.cons_append, cellRec, this] at ih ⊢
+      cases YM' with
+      | nil => simp at ih ⊢
+      | cons _ _ => simp at hl'
+    | cons n1 M'' =>
+      subst hM
+      have hn : m0 < n1 := hhead n1 (by simp)
+      have := ovr_full a b m0 n1 (ha m0 (by simp)) (hb n1 (by simp)) hn
+      simp only [List.cons_append, cellRec, this, List.sum_cons] at ih ⊢
+      rw [ih]; ring
+
+private theorem scaleLast_concat (l : List Rat) (z f : Rat) : scaleLast (l ++ [z]) f = some (l ++ [z * f]) := by
+  simp [scaleLast]
+
+private theorem code_B2 (x0 p r y0 z a b h : Rat) (M R' YM YR : List Rat) (hM : M.length = YM.length)
+    (hh : (M ++ p :: r :: R')[0]? = some h) (hx0 : x0 ≤ a) (hah : a < h) (hhb : h ≤ b) (hpr : p < r)
+    (hbp : p ≤ b) (hbr : b < r) :
+    resampleBody (x0 :: (M ++ p :: r :: R')) (y0 :: (YM ++ z :: YR)) false a b ((0 + 1 : Nat) : Int)
+        ((YM.length + 1 + 1 : Nat) : Int)
+      = some (y0 * (ovr a b x0 h / (h - x0)) + YM.sum + z * ((b - p) / (r - p))) := by
+  have hx0h : x0 < h := lt_of_le_of_lt hx0 hah
+  have hov : ovr a b x0 h = h - a := by unfold ovr rmax rmin; split_ifs <;> linarith
+  unfold resampleBody
+  have d1 : ((0 + 1 : Nat) : Int) - 1 = ((0 : Nat) : Int) := by simp
+  have d2 : ((YM.length + 1 + 1 : Nat) : Int) + 1 = ((YM.length + 3 : Nat) : Int) := by push_cast; ring
+  have d3 : ((YM.length + 1 + 1 : Nat) : Int) - 1 = ((YM.length + 1 : Nat) : Int) := by push_cast; ring
+  have d4 : (((x0 :: (M ++ p :: r :: R')).length : Nat) : Int) - 1 = ((M.length + R'.length + 2 : Nat) : Int) := by
+    simp; ring
+  have d5 : (if ((YM.length + 1 + 1 : Nat) : Int) ≤ ((M.length + R'.length + 2 : Nat) : Int) then
+      ((YM.length + 1 + 1 : Nat) : Int) else ((M.length + R'.length + 2 : Nat) : Int)) = ((YM.length + 2 : Nat) : Int) := by
+    rw [if_pos (by rw [hM]; push_cast; omega)]
+  have d6 : ¬ (((0 + 1 : Nat) : Int) = ((YM.length + 1 + 1 : Nat) : Int)) := by push_cast; omega
+  simp only [d1, d2, d3, d4, d5, pySlice_nat, pyIndex_nat, if_neg d6]
+  have g1 : (x0 :: (M ++ p :: r :: R'))[YM.length + 2]? = some r := by
+    rw [← hM]; simp
+  have g2 : (x0 :: (M ++ p :: r :: R'))[YM.length + 1]? = some p := by
+    rw [← hM]; simp
+  have g3 : (x0 :: (M ++ p :: r :: R'))[0 + 1]? = some h := by simpa using hh
+  have g0 : (x0 :: (M ++ p :: r :: R'))[0]? = some x0 := rfl
+  have t1 : List.take (min (YM.length + 1 + 1) (y0 :: (YM ++ z :: YR)).length - min 0 (y0 :: (YM ++ z :: YR)).length)
+      (List.drop (min 0 (y0 :: (YM ++ z :: YR)).length) (y0 :: (YM ++ z :: YR))) = (y0 :: YM) ++ [z] := by
+    simp [List.take_append]
+  simp only [t1, g1, g2, g3, g0]
+  have n1 : r - p ≠ 0 := sub_ne_zero.mpr (ne_of_gt hpr)
+  have n2 : h - x0 ≠ 0 := sub_ne_zero.mpr (ne_of_gt hx0h)
+  have n3 : h - a ≠ 0 := sub_ne_zero.mpr (ne_of_gt hah)
+  have e1 : scaleLast (y0 :: YM ++ [z]) ((b - p) / (r - p)) = some (y0 :: YM ++ [z * ((b - p) / (r - p))]) :=
+    scaleLast_concat (y0 :: YM) z _
+  have e2 : (y0 :: YM ++ [z]).dropLast = y0 :: YM := by
+    show ((y0 :: YM) ++ [z]).dropLast = y0 :: YM
+    exact List.dropLast_concat
+  have e3 : (y0 :: YM ++ [z]).isEmpty = false := rfl
+  generalize (y0 :: YM ++ [z]) = C at e1 e2 e3 ⊢
+  by_cases hb0 : b - p = 0 <;> by_cases ha0 : x0 < a
+  · simp [hbr, n1, n2, n3, hb0, ha0, scaleFirst, e1, e2, e3, hov]
+  · have : x0 = a := le_antisymm hx0 (not_lt.mp ha0)
+    subst this
+    simp [hbr, n1, n2, hb0, scaleFirst, e1, e2, e3, hov]
+  · simp [hbr, n1, n2, n3, hb0, ha0, scaleFirst, e1, e2, e3, hov, List.sum_append]
+    field_simp
+    ring
+  · have : x0 = a := le_antisymm hx0 (not_lt.mp ha0)
+    subst this
+    simp [hbr, n1, n2, hb0, scaleFirst, e1, e2, e3, hov, List.sum_append]
+    ring
+
+private theorem code_B1 (x0 p y0 a b h : Rat) (M YM : List Rat) (hM : M.length = YM.length)
+    (hh : (M ++ [p])[0]? = some h) (hx0 : x0 ≤ a) (hah : a < h) (hhb : h ≤ b) (hbp : p ≤ b) :
+    resampleBody (x0 :: (M ++ [p])) (y0 :: YM) false a b ((0 + 1 : Nat) : Int) ((YM.length + 1 + 1 : Nat) : Int)
+      = some (y0 * (ovr a b x0 h / (h - x0)) + YM.sum) := by
+  have hx0h : x0 < h := lt_of_le_of_lt hx0 hah
+  have hov : ovr a b x0 h = h - a := by unfold ovr rmax rmin; split_ifs <;> linarith
+  unfold resampleBody
+  have d1 : ((0 + 1 : Nat) : Int) - 1 = ((0 : Nat) : Int) := by simp
+  have d2 : ((YM.length + 1 + 1 : Nat) : Int) + 1 = ((YM.length + 3 : Nat) : Int) := by push_cast; ring
+  have d3 : ((YM.length + 1 + 1 : Nat) : Int) - 1 = ((YM.length + 1 : Nat) : Int) := by push_cast; ring
+  have d4 : (((x0 :: (M ++ [p])).length : Nat) : Int) - 1 = ((M.length + 1 : Nat) : Int) := by simp
+  have d5 : (if ((YM.length + 1 + 1 : Nat) : Int) ≤ ((M.length + 1 : Nat) : Int) then
+      ((YM.length + 1 + 1 : Nat) : Int) else ((M.length + 1 : Nat) : Int)) = ((YM.length + 1 : Nat) : Int) := by
+    rw [if_neg (by rw [hM]; push_cast; omega), hM]
+  have d6 : ¬ (((0 + 1 : Nat) : Int) = ((YM.length + 1 + 1 : Nat) : Int)) := by push_cast; omega
+  simp only [d1, d2, d3, d4, d5, pySlice_nat, pyIndex_nat, if_neg d6]
+  have g2 : (x0 :: (M ++ [p]))[YM.length + 1]? = some p := by rw [← hM]; simp
+  have g3 : (x0 :: (M ++ [p]))[0 + 1]? = some h := by simpa using hh
+  have g0 : (x0 :: (M ++ [p]))[0]? = some x0 := rfl
+  have t1 : List.take (min (YM.length + 1 + 1) (y0 :: YM).length - min 0 (y0 :: YM).length)
+      (List.drop (min 0 (y0 :: YM).length) (y0 :: YM)) = y0 :: YM := by
+    simp
+  simp only [t1, g2, g3, g0]
+  have n2 : h - x0 ≠ 0 := sub_ne_zero.mpr (ne_of_gt hx0h)
+  have n3 : h - a ≠ 0 := sub_ne_zero.mpr (ne_of_gt hah)
+  by_cases ha0 : x0 < a
+  · simp [not_lt.mpr hbp, n2, n3, ha0, scaleFirst, hov]
+  · have : x0 = a := le_antisymm hx0 (not_lt.mp ha0)
+    subst this
+    simp [not_lt.mpr hbp, n2, scaleFirst, hov]
+
+private theorem code_A (x0 r y0 a b : Rat) (R' YR : List Rat) (hx0 : x0 ≤ a) (hab : a < b) (hbr : b < r) :
+    resampleBody (x0 :: r :: R') (y0 :: YR) false a b ((0 + 1 : Nat) : Int) ((0 + 1 : Nat) : Int)
+      = some (y0 * (ovr a b x0 r / (r - x0))) := by
+  have hov : ovr a b x0 r = b - a := by unfold ovr rmax rmin; split_ifs <;> linarith
+  have n1 : r - x0 ≠ 0 := sub_ne_zero.mpr (ne_of_gt (by linarith))
+  have n2 : b - x0 ≠ 0 := sub_ne_zero.mpr (ne_of_gt (by linarith))
+  have n3 : r - a ≠ 0 := sub_ne_zero.mpr (ne_of_gt (by linarith))
+  unfold resampleBody
+  have d1 : ((0 + 1 : Nat) : Int) - 1 = ((0 : Nat) : Int) := by simp
+  have d2 : ((0 + 1 : Nat) : Int) + 1 = ((2 : Nat) : Int) := by simp
+  have d4 : (((x0 :: r :: R').length : Nat) : Int) - 1 = ((R'.length + 1 : Nat) : Int) := by simp
+  have d5 : (if ((0 + 1 : Nat) : Int) ≤ ((R'.length + 1 : Nat) : Int) then
+      ((0 + 1 : Nat) : Int) else ((R'.length + 1 : Nat) : Int)) = ((1 : Nat) : Int) := by
+    rw [if_pos (by push_cast; omega)]
+  simp only [d1, d2, d4, d5, pySlice_nat, pyIndex_nat]
+  by_cases ha0 : x0 < a
+  · simp [hbr, n1, n2, n3, ha0, scaleFirst, scaleLast, hov]
+    field_simp
+    ring
+  · have : x0 = a := le_antisymm hx0 (not_lt.mp ha0)
+    subst this
+    simp [hbr, n1, n2, scaleFirst, scaleLast, hov]
+
+private theorem code_A0 (x0 a b : Rat) :
+    resampleBody [x0] [] false a b ((0 + 1 : Nat) : Int) ((0 + 1 : Nat) : Int) = some 0 := by
+  simp [resampleBody, pySlice]
+
+
+private theorem resampleCell_eq (X Y : List Rat) (a b : Rat) :
+    resampleCell X Y false a b = resampleBody X Y false a b ((dN X a : Nat) : Int) ((dN X b : Nat) : Int) := rfl
+
+/-- **every output cell gets the covered share of every input bin** -/
+theorem resample_cell_share (a b : Rat) (hab : a < b) : ∀ (X Y : List Rat), X.Pairwise (· < ·) → X.length = Y.length + 1 →
+    (∀ x, X.head? = some x → x ≤ a) → resampleCell X Y false a b = some (cellRec a b X Y)
+  | [], _, _, hl, _ => by simp at hl
+  | [x0], Y, _, hl, h0 => by
+    have hY : Y = [] := by
+      cases Y with
+      | nil => rfl
+      | cons _ _ => simp at hl
+    subst hY
+    have hx : x0 ≤ a := h0 x0 rfl
+    have e1 : dN [x0] a = 0 + 1 := by rw [dN_cons_le x0 [] a hx]; rfl
+    have e2 : dN [x0] b = 0 + 1 := by rw [dN_cons_le x0 [] b (by linarith)]; rfl
+    rw [resampleCell_eq, e1, e2, code_A0]; simp [cellRec]
+  | _ :: _ :: _, [], _, hl, _ => by simp at hl
+  | x0 :: x1 :: xs, y0 :: ys, hs, hl, h0 => by
+    have hx : x0 ≤ a := h0 x0 rfl
+    obtain ⟨hhd, hs'⟩ := List.pairwise_cons.mp hs
+    have h01 : x0 < x1 := hhd x1 (by simp)
+    have hl' : (x1 :: xs).length = ys.length + 1 := by simpa using hl
+    by_cases h1 : x1 ≤ a
+    · -- the first bin lies left of the cell: shift
+      have ih := resample_cell_share a b hab (x1 :: xs) ys hs' hl' (fun x hx' => by simp at hx'; subst hx'; exact h1)
+      have ea : dN (x0 :: x1 :: xs) a = dN xs a + 2 := by
+        rw [dN_cons_le _ _ _ hx, dN_cons_le _ _ _ h1]
+      have eb : dN (x0 :: x1 :: xs) b = dN xs b + 2 := by
+        rw [dN_cons_le _ _ _ (by linarith), dN_cons_le _ _ _ (by linarith)]
+      have ea' : dN (x1 :: xs) a = dN xs a + 1 := dN_cons_le _ _ _ h1
+      have eb' : dN (x1 :: xs) b = dN xs b + 1 := dN_cons_le _ _ _ (by linarith)
+      rw [resampleCell_eq, ea', eb'] at ih
+      rw [resampleCell_eq, ea, eb, body_shift, ih]
+      have : ovr a b x0 x1 = 0 := by unfold ovr rmax rmin; split_ifs <;> linarith
+      simp [cellRec, this]
+    · -- the cell starts in the first bin
+      have h1' : a < x1 := not_le.mp h1
+      have hTgt : ∀ x ∈ x1 :: xs, a < x := by
+        intro x hx'
+        rcases List.mem_cons.mp hx' with rfl | hx''
+        · exact h1'
+        · exact lt_trans h1' ((List.pairwise_cons.mp hs').1 x hx'')
+      have ea : dN (x0 :: x1 :: xs) a = 0 + 1 := by
+        rw [dN_cons_le _ _ _ hx, dN_all_gt _ _ hTgt]
+      obtain ⟨Mp, R, hT, hMp, hR⟩ := split_sorted b (x1 :: xs) hs'
+      have eb : dN (x0 :: x1 :: xs) b = Mp.length + 1 := by
+        rw [dN_cons_le _ _ _ (by linarith), hT, dN_append, dN_all_le _ _ hMp, dN_all_gt _ _ hR]
+      have hspec0 : cellRec a b (x0 :: x1 :: xs) (y0 :: ys)
+          = y0 * (ovr a b x0 x1 / (x1 - x0)) + cellRec a b (x1 :: xs) ys := rfl
+      rcases List.eq_nil_or_concat Mp with hnil | ⟨M, p, hMp'⟩
+      · -- the whole cell lies inside the first bin
+        subst hnil
+        simp only [List.nil_append] at hT
+        have hb1 : b < x1 := hR x1 (by rw [← hT]; simp)
+        have hz := cellRec_zero a b (x1 :: xs) ys hs' (fun x hx' => le_of_lt (hR x (by rw [← hT]; exact hx')))
+        rw [resampleCell_eq, ea, eb, hspec0, hz]
+        show resampleBody _ _ false a b ((0 + 1 : Nat) : Int) ((0 + 1 : Nat) : Int) = _
+        rw [code_A x0 x1 y0 a b xs ys hx hab hb1, add_zero]
+      · rw [List.concat_eq_append] at hMp'
+        subst hMp'
+        have hpb : p ≤ b := hMp p (by simp)
+        have hh : ∀ Z, ((M ++ [p]) ++ Z)[0]? = some x1 → True := fun _ _ => trivial
+        have hMa : ∀ x ∈ M, a ≤ x := fun x hx' => le_of_lt (hTgt x (by rw [hT]; simp [hx']))
+        have hx1mem : x1 ∈ M ++ [p] := by
+          have h0' : (M ++ [p] ++ R)[0]? = some x1 := by rw [← hT]; rfl
+          cases M with
+          | nil => simp at h0'; simp [h0']
+          | cons m M' => simp at h0'; simp [h0']
+        have hx1b : x1 ≤ b := hMp x1 hx1mem
+        cases R with
+        | nil =>
+          -- the cell reaches the last point
+          simp only [List.append_nil] at hT
+          have hlen : M.length = ys.length := by
+            have := congrArg List.length hT; simp at this hl'; omega
+          have hh0 : (M ++ [p])[0]? = some x1 := by rw [← hT]; rfl
+          have hsp := spec_mid a b p [] [] M ys hlen (by rw [← hT]; exact hs') hMa hMp
+          simp only [List.append_nil, cellRec, add_zero] at hsp
+          rw [resampleCell_eq, ea, eb, hspec0, hT, hsp]
+          simp only [List.length_append, List.length_singleton, hlen]
+          rw [code_B1 x0 p y0 a b x1 M ys hlen hh0 hx h1' hx1b hpb]
+        | cons r R' =>
+          have hT' : x1 :: xs = M ++ p :: r :: R' := by rw [hT]; simp
+          have hbr : b < r := hR r (by simp)
+          have hlen : ys.length = M.length + 1 + R'.length := by
+            have := congrArg List.length hT'; simp at this hl'; omega
+          obtain ⟨YM, Yz, hys, hYM⟩ : ∃ YM Yz, ys = YM ++ Yz ∧ YM.length = M.length :=
+            ⟨ys.take M.length, ys.drop M.length, (List.take_append_drop _ _).symm, by simp; omega⟩
+          cases Yz with
+          | nil => simp at hys; subst hys; omega
+          | cons z YR =>
+            subst hys
+            have hsT : (M ++ p :: r :: R').Pairwise (· < ·) := by rw [← hT']; exact hs'
+            have hpr : p < r := by
+              have := List.pairwise_append.mp hsT
+              exact (List.pairwise_cons.mp this.2.1).1 r (by simp)
+            have hh0 : (M ++ p :: r :: R')[0]? = some x1 := by rw [← hT']; rfl
+            have hsp := spec_mid a b p (r :: R') (z :: YR) M YM hYM.symm hsT hMa hMp
+            have hap : a ≤ p := le_of_lt (hTgt p (by rw [hT']; simp))
+            have hz := cellRec_zero a b (r :: R') YR
+              ((List.pairwise_cons.mp (List.pairwise_append.mp hsT).2.1).2)
+              (fun x hx' => le_of_lt (hR x hx'))
+            have hov : ovr a b p r = b - p := by unfold ovr rmax rmin; split_ifs <;> linarith
+            have hc : cellRec a b (p :: r :: R') (z :: YR) = z * ((b - p) / (r - p)) := by
+              simp only [cellRec, hz, hov, add_zero]
+            rw [resampleCell_eq, ea, eb, hspec0, hT', hsp, hc]
+            simp only [List.length_append, List.length_singleton]
+            rw [← hYM, code_B2 x0 p r y0 z a b x1 M R' YM YR hYM.symm hh0 hx h1' hx1b hpr hpb hbr]
+            congr 1; ring
+
+
+private theorem cells_mem : ∀ (l : List Rat), l.Pairwise (· < ·) → ∀ c ∈ cellsOf l, c.1 < c.2 ∧ c.1 ∈ l ∧ c.2 ∈ l
+  | [], _, c, hc => by simp [cellsOf] at hc
+  | [_], _, c, hc => by simp [cellsOf] at hc
+  | z0 :: z1 :: t, hs, c, hc => by
+    simp only [cellsOf, List.mem_cons] at hc
+    rcases hc with rfl | hc
+    · exact ⟨(List.pairwise_cons.mp hs).1 z1 (by simp), by simp, by simp⟩
+    · obtain ⟨h1, h2, h3⟩ := cells_mem (z1 :: t) (List.pairwise_cons.mp hs).2 c hc
+      exact ⟨h1, List.mem_cons_of_mem _ h2, List.mem_cons_of_mem _ h3⟩
+
+def lastD : Rat → List Rat → Rat
+  | z, [] => z
+  | _, z :: t => lastD z t
+
+private theorem lastD_ge : ∀ (l : List Rat) (z0 : Rat), (z0 :: l).Pairwise (· < ·) → ∀ x ∈ z0 :: l, x ≤ lastD z0 l
+  | [], z0, _, x, hx => by simp at hx; subst hx; exact le_refl _
+  | z1 :: t, z0, hs, x, hx => by
+    have ih := lastD_ge t z1 (List.pairwise_cons.mp hs).2
+    rcases List.mem_cons.mp hx with rfl | hx
+    · exact le_trans (le_of_lt ((List.pairwise_cons.mp hs).1 z1 (by simp))) (ih z1 (by simp))
+    · exact ih x hx
+
+private theorem cells_tele (p q : Rat) (hpq : p ≤ q) : ∀ (l : List Rat) (z0 : Rat), (z0 :: l).Pairwise (· < ·) →
+    ((cellsOf (z0 :: l)).map (fun c => ovr c.1 c.2 p q)).sum = clip p q (lastD z0 l) - clip p q z0
+  | [], z0, _ => by simp [cellsOf, lastD]
+  | z1 :: t, z0, hs => by
+    have ih := cells_tele p q hpq t z1 (List.pairwise_cons.mp hs).2
+    have h01 : z0 < z1 := (List.pairwise_cons.mp hs).1 z1 (by simp)
+    have : ovr z0 z1 p q = clip p q z1 - clip p q z0 := by
+      unfold ovr clip rmax rmin; split_ifs <;> linarith
+    simp only [cellsOf, List.map_cons, List.sum_cons, lastD, this, ih]
+    ring
+
+private theorem sum_cells_cellRec (l : List Rat) (z0 : Rat) (hso : (z0 :: l).Pairwise (· < ·)) :
+    ∀ (X Y : List Rat), X.Pairwise (· < ·) → X.length = Y.length + 1 → (∀ x ∈ X, z0 ≤ x ∧ x ≤ lastD z0 l) →
+      ((cellsOf (z0 :: l)).map (fun c => cellRec c.1 c.2 X Y)).sum = Y.sum
+  | [], _, _, hl, _ => by simp at hl
+  | [_], Y, _, hl, _ => by
+    have : Y = [] := by
+      cases Y with
+      | nil => rfl
+      | cons _ _ => simp at hl
+    subst this
+    simp [cellRec]
+  | _ :: _ :: _, [], _, hl, _ => by simp at hl
+  | x0 :: x1 :: xs, y0 :: ys, hs, hl, hb => by
+    have ih := sum_cells_cellRec l z0 hso (x1 :: xs) ys (List.pairwise_cons.mp hs).2 (by simpa using hl)
+      (fun x hx => hb x (List.mem_cons_of_mem _ hx))
+    have h01 : x0 < x1 := (List.pairwise_cons.mp hs).1 x1 (by simp)
+    have ht := cells_tele x0 x1 (le_of_lt h01) l z0 hso
+    rw [clip_of_hi_le x0 x1 _ (le_of_lt h01) (hb x1 (by simp)).2,
+      clip_of_le_lo x0 x1 _ (le_of_lt h01) (hb x0 (by simp)).1] at ht
+    have e : (cellsOf (z0 :: l)).map (fun c => cellRec c.1 c.2 (x0 :: x1 :: xs) (y0 :: ys))
+        = (cellsOf (z0 :: l)).map (fun c => y0 / (x1 - x0) * ovr c.1 c.2 x0 x1 + cellRec c.1 c.2 (x1 :: xs) ys) := by
+      apply List.map_congr_left; intro c _; simp only [cellRec]; ring
+    rw [e]
+    have hsplit : ∀ (L : List (Rat × Rat)) (f g : Rat × Rat → Rat),
+        (L.map (fun c => f c + g c)).sum = (L.map f).sum + (L.map g).sum := by
+      intro L f g; induction L with
+      | nil => simp
+      | cons c t ih => simp only [List.map_cons, List.sum_cons, ih]; ring
+    rw [hsplit, sum_map_mul_left, ht, ih]
+    have : x1 - x0 ≠ 0 := sub_ne_zero.mpr (ne_of_gt h01)
+    simp only [List.sum_cons]; field_simp
+
+/-- **`resampleStepwise(avg=False)` conserves the total**: for any strictly increasing input mesh, any
+strictly increasing output mesh that starts at the first input point and reaches the last one, and any values,
+`Σ yout = Σ yin` — and each output cell holds the covered share of every input bin. -/
+theorem resample_sum_conserved (xin yin xout : List Rat) (hs : xin.Pairwise (· < ·))
+    (hl : xin.length = yin.length + 1) (hso : xout.Pairwise (· < ·)) (hhead : xout.head? = xin.head?)
+    (hlast : ∃ z ∈ xout, ∀ w ∈ xin, w ≤ z) :
+    resample xin yin xout false = some ((cellsOf xout).map (fun c => cellRec c.1 c.2 xin yin)) ∧
+    (resample xin yin xout false).map List.sum = some yin.sum := by
+  have hval : resample xin yin xout false = some ((cellsOf xout).map (fun c => cellRec c.1 c.2 xin yin)) := by
+    unfold resample
+    rw [if_neg (by simp [hl])]
+    apply mapM_some
+    intro c hc
+    obtain ⟨h1, h2, _⟩ := cells_mem xout hso c hc
+    refine resample_cell_share c.1 c.2 h1 xin yin hs hl ?_
+    intro x hx
+    rw [← hhead] at hx
+    cases xout with
+    | nil => simp at hx
+    | cons z0 l =>
+      simp at hx; subst hx
+      rcases List.mem_cons.mp h2 with h | h
+      · exact le_of_eq h.symm
+      · exact le_of_lt ((List.pairwise_cons.mp hso).1 _ h)
+  refine ⟨hval, ?_⟩
+  rw [hval]
+  simp only [Option.map_some, Option.some.injEq]
+  cases xout with
+  | nil =>
+    cases xin with
+    | nil => simp at hl
+    | cons _ _ => simp at hhead
+  | cons z0 l =>
+    apply sum_cells_cellRec l z0 hso xin yin hs hl
+    intro x hx
+    obtain ⟨z, hz, hzw⟩ := hlast
+    refine ⟨?_, le_trans (hzw x hx) (lastD_ge l z0 hso z hz)⟩
+    cases xin with
+    | nil => cases hx
+    | cons x0 t =>
+      simp at hhead; subst hhead
+      rcases List.mem_cons.mp hx with h | h
+      · exact le_of_eq h.symm
+      · exact le_of_lt ((List.pairwise_cons.mp hs).1 _ h)
+
+/-- the code's `weighted_sum = sum(ch * ln for ch, ln in zip(chunk, length))` -/
+def dot (Y D : List Rat) : Rat := ((List.zip Y D).map (fun p => p.1 * p.2)).sum
+
+private theorem dot_cons (y d : Rat) (Y D : List Rat) : dot (y :: Y) (d :: D) = y * d + dot Y D := by simp [dot]
+
+private theorem dot_append (Y1 D1 Y2 D2 : List Rat) (h : Y1.length = D1.length) :
+    dot (Y1 ++ Y2) (D1 ++ D2) = dot Y1 D1 + dot Y2 D2 := by
+  simp [dot, List.zip_append h]
+
+private theorem diffs_cons_head (x0 h : Rat) (l : List Rat) (hh : l[0]? = some h) : diffs (x0 :: l) = (h - x0) :: diffs l := by
+  cases l with
+  | nil => simp at hh
+  | cons a t => simp at hh; subst hh; rfl
+
+private theorem diffs_concat2 (p r : Rat) : ∀ L : List Rat, diffs (L ++ [p, r]) = diffs (L ++ [p]) ++ [r - p]
+  | [] => by simp [diffs]
+  | [a] => by simp [diffs]
+  | a :: c :: t => by
+    have ih := diffs_concat2 p r (c :: t)
+    simp only [List.cons_append, diffs] at ih ⊢
+    rw [ih]
+
+private theorem diffs_length : ∀ L : List Rat, (diffs L).length = L.length - 1
+  | [] => rfl
+  | [_] => rfl
+  | a :: c :: t => by simp [diffs, diffs_length (c :: t)]
+
+private theorem diffs_sum_nonneg : ∀ L : List Rat, L.Pairwise (· < ·) → 0 ≤ (diffs L).sum
+  | [], _ => by simp [diffs]
+  | [_], _ => by simp [diffs]
+  | a :: c :: t, hs => by
+    have ih := diffs_sum_nonneg (c :: t) (List.pairwise_cons.mp hs).2
+    have : a < c := (List.pairwise_cons.mp hs).1 c (by simp)
+    simp only [diffs, List.sum_cons]; linarith
+
+/-- numerator and denominator of the length-weighted mean over the cell `[a, b]` -/
+def cellW (a b : Rat) : List Rat → List Rat → Rat
+  | x0 :: x1 :: xs, y :: ys => y * ovr a b x0 x1 + cellW a b (x1 :: xs) ys
+  | _, _ => 0
+
+def cellLen (a b : Rat) : List Rat → Rat
+  | x0 :: x1 :: xs => ovr a b x0 x1 + cellLen a b (x1 :: xs)
+  | _ => 0
+
+private theorem cellW_zero (a b : Rat) : ∀ (X Y : List Rat), X.Pairwise (· < ·) → (∀ x ∈ X, b ≤ x) → cellW a b X Y = 0
+  | [], _, _, _ => by simp [cellW]
+  | [_], _, _, _ => by simp [cellW]
+  | _ :: _ :: _, [], _, _ => by simp [cellW]
+  | x0 :: x1 :: xs, y :: ys, hs, hb => by
+    have h0 := hb x0 (by simp)
+    have h01 : x0 < x1 := (List.pairwise_cons.mp hs).1 x1 (by simp)
+    have ih := cellW_zero a b (x1 :: xs) ys (List.pairwise_cons.mp hs).2 (fun x hx => hb x (List.mem_cons_of_mem _ hx))
+    have : ovr a b x0 x1 = 0 := by unfold ovr rmax rmin; split_ifs <;> linarith
+    simp [cellW, ih, this]
+
+private theorem cellLen_zero (a b : Rat) : ∀ (X : List Rat), X.Pairwise (· < ·) → (∀ x ∈ X, b ≤ x) → cellLen a b X = 0
+  | [], _, _ => by simp [cellLen]
+  | [_], _, _ => by simp [cellLen]
+  | x0 :: x1 :: xs, hs, hb => by
+    have h0 := hb x0 (by simp)
+    have h01 : x0 < x1 := (List.pairwise_cons.mp hs).1 x1 (by simp)
+    have ih := cellLen_zero a b (x1 :: xs) (List.pairwise_cons.mp hs).2 (fun x hx => hb x (List.mem_cons_of_mem _ hx))
+    have : ovr a b x0 x1 = 0 := by unfold ovr rmax rmin; split_ifs <;> linarith
+    simp [cellLen, ih, this]
+
+private theorem ovr_full' (a b p q : Rat) (h1 : a ≤ p) (h2 : q ≤ b) (h3 : p < q) : ovr a b p q = q - p := by
+  unfold ovr rmax rmin; split_ifs <;> linarith
+
+private theorem specW_mid (a b p : Rat) (Rr Yr : List Rat) : ∀ (M YM : List Rat), M.length = YM.length →
+    (M ++ p :: Rr).Pairwise (· < ·) → (∀ x ∈ M, a ≤ x) → (∀ x ∈ M ++ [p], x ≤ b) →
+    cellW a b (M ++ p :: Rr) (YM ++ Yr) = dot YM (diffs (M ++ [p])) + cellW a b (p :: Rr) Yr ∧
+    cellLen a b (M ++ p :: Rr) = (diffs (M ++ [p])).sum + cellLen a b (p :: Rr)
+  | [], [], _, _, _, _ => by simp [dot, diffs]
+  | [], _ :: _, h, _, _, _ => by simp at h
+  | _ :: _, [], h, _, _, _ => by simp at h
+  | m0 :: M', y :: YM', hl, hs, ha, hb => by
+    have hl' : M'.length = YM'.length := by simpa using hl
+    have hs0 : (m0 :: (M' ++ p :: Rr)).Pairwise (· < ·) := by simpa using hs
+    have ih := specW_mid a b p Rr Yr M' YM' hl' (List.pairwise_cons.mp hs0).2
+      (fun x hx => ha x (List.mem_cons_of_mem _ hx)) (fun x hx => hb x (by simp at hx ⊢; tauto))
+    have hhead : ∀ x ∈ M' ++ p :: Rr, m0 < x := (List.pairwise_cons.mp hs0).1
+    cases hM : M' with
+    | nil =>
+      subst hM
+      have hp : m0 < p := hhead p (by simp)
+      have := ovr_full' a b m0 p (ha m0 (by simp)) (hb p (by simp)) hp
+      cases YM' with
+      | nil => simp [cellW, cellLen, this, dot, diffs]
+      | cons _ _ => simp at hl'
+    | cons n1 M'' =>
+      subst hM
+      have hn : m0 < n1 := hhead n1 (by simp)
+      have := ovr_full' a b m0 n1 (ha m0 (by simp)) (hb n1 (by simp)) hn
+      simp only [List.cons_append, cellW, cellLen, this, diffs, dot_cons, List.sum_cons] at ih ⊢
+      rw [ih.1, ih.2]; constructor <;> ring
+
+
+private theorem resampleCell_eqT (X Y : List Rat) (a b : Rat) :
+    resampleCell X Y true a b = resampleBody X Y true a b ((dN X a : Nat) : Int) ((dN X b : Nat) : Int) := rfl
+
+private theorem codeT_A (x0 r y0 a b : Rat) (R' YR : List Rat) (hx0 : x0 ≤ a) (hab : a < b) (hbr : b < r) :
+    resampleBody (x0 :: r :: R') (y0 :: YR) true a b ((0 + 1 : Nat) : Int) ((0 + 1 : Nat) : Int) = some y0 := by
+  have n1 : r - x0 ≠ 0 := sub_ne_zero.mpr (ne_of_gt (by linarith))
+  have n2 : b - x0 ≠ 0 := sub_ne_zero.mpr (ne_of_gt (by linarith))
+  have n3 : r - a ≠ 0 := sub_ne_zero.mpr (ne_of_gt (by linarith))
+  unfold resampleBody
+  have d1 : ((0 + 1 : Nat) : Int) - 1 = ((0 : Nat) : Int) := by simp
+  have d2 : ((0 + 1 : Nat) : Int) + 1 = ((2 : Nat) : Int) := by simp
+  have d4 : (((x0 :: r :: R').length : Nat) : Int) - 1 = ((R'.length + 1 : Nat) : Int) := by simp
+  have d5 : (if ((0 + 1 : Nat) : Int) ≤ ((R'.length + 1 : Nat) : Int) then
+      ((0 + 1 : Nat) : Int) else ((R'.length + 1 : Nat) : Int)) = ((1 : Nat) : Int) := by
+    rw [if_pos (by push_cast; omega)]
+  simp only [d1, d2, d4, d5, pySlice_nat, pyIndex_nat]
+  by_cases ha0 : x0 < a
+  · simp [hbr, n1, n2, n3, ha0, scaleFirst, scaleLast, diffs]
+  · have : x0 = a := le_antisymm hx0 (not_lt.mp ha0)
+    subst this
+    simp [hbr, n1, n2, scaleFirst, scaleLast, diffs]
+
+private theorem codeT_B2 (x0 p r y0 z a b h : Rat) (M R' YM YR : List Rat) (hM : M.length = YM.length)
+    (hh : (M ++ [p])[0]? = some h) (hx0 : x0 ≤ a) (hah : a < h) (hpr : p < r)
+    (hbp : p ≤ b) (hbr : b < r) (hD : 0 ≤ (diffs (M ++ [p])).sum) :
+    resampleBody (x0 :: (M ++ p :: r :: R')) (y0 :: (YM ++ z :: YR)) true a b ((0 + 1 : Nat) : Int)
+        ((YM.length + 1 + 1 : Nat) : Int)
+      = some ((y0 * (h - a) + dot YM (diffs (M ++ [p])) + z * (b - p)) /
+              ((h - a) + (diffs (M ++ [p])).sum + (b - p))) := by
+  have hx0h : x0 < h := lt_of_le_of_lt hx0 hah
+  unfold resampleBody
+  have d1 : ((0 + 1 : Nat) : Int) - 1 = ((0 : Nat) : Int) := by simp
+  have d2 : ((YM.length + 1 + 1 : Nat) : Int) + 1 = ((YM.length + 3 : Nat) : Int) := by push_cast; ring
+  have d3 : ((YM.length + 1 + 1 : Nat) : Int) - 1 = ((YM.length + 1 : Nat) : Int) := by push_cast; ring
+  have d4 : (((x0 :: (M ++ p :: r :: R')).length : Nat) : Int) - 1 = ((M.length + R'.length + 2 : Nat) : Int) := by
+    simp; ring
+  have d5 : (if ((YM.length + 1 + 1 : Nat) : Int) ≤ ((M.length + R'.length + 2 : Nat) : Int) then
+      ((YM.length + 1 + 1 : Nat) : Int) else ((M.length + R'.length + 2 : Nat) : Int)) = ((YM.length + 2 : Nat) : Int) := by
+    rw [if_pos (by rw [hM]; push_cast; omega)]
+  simp only [d1, d2, d3, d4, d5, pySlice_nat, pyIndex_nat]
+  have g1 : (x0 :: (M ++ p :: r :: R'))[YM.length + 2]? = some r := by rw [← hM]; simp
+  have g2 : (x0 :: (M ++ p :: r :: R'))[YM.length + 1]? = some p := by rw [← hM]; simp
+  have g3 : (x0 :: (M ++ p :: r :: R'))[0 + 1]? = some h := by
+    cases M with
+    | nil => simpa using hh
+    | cons m M' => simpa using hh
+  have g0 : (x0 :: (M ++ p :: r :: R'))[0]? = some x0 := rfl
+  have t1 : List.take (min (YM.length + 1 + 1) (y0 :: (YM ++ z :: YR)).length - min 0 (y0 :: (YM ++ z :: YR)).length)
+      (List.drop (min 0 (y0 :: (YM ++ z :: YR)).length) (y0 :: (YM ++ z :: YR))) = (y0 :: YM) ++ [z] := by
+    simp [List.take_append]
+  have t2 : List.take (min (YM.length + 3) (x0 :: (M ++ p :: r :: R')).length - min 0 (x0 :: (M ++ p :: r :: R')).length)
+      (List.drop (min 0 (x0 :: (M ++ p :: r :: R')).length) (x0 :: (M ++ p :: r :: R'))) = (x0 :: M) ++ [p, r] := by
+    rw [← hM]; simp [List.take_append]
+  have eD : diffs ((x0 :: M) ++ [p, r]) = ((h - x0) :: diffs (M ++ [p])) ++ [r - p] := by
+    rw [diffs_concat2, List.cons_append, diffs_cons_head x0 h (M ++ [p]) hh]
+  simp only [t1, t2, eD, g1, g2, g3, g0]
+  have hDl : (diffs (M ++ [p])).length = YM.length := by rw [diffs_length]; simp [hM]
+  generalize diffs (M ++ [p]) = D at hD hDl ⊢
+  have n1 : r - p ≠ 0 := sub_ne_zero.mpr (ne_of_gt hpr)
+  have n2 : h - x0 ≠ 0 := sub_ne_zero.mpr (ne_of_gt hx0h)
+  have n3 : h - a ≠ 0 := sub_ne_zero.mpr (ne_of_gt hah)
+  have e1 : scaleLast (((h - x0) :: D) ++ [r - p]) ((b - p) / (r - p)) = some ((h - x0) :: (D ++ [(r - p) * ((b - p) / (r - p))])) :=
+    scaleLast_concat _ _ _
+  have e2 : (((h - x0) :: D) ++ [r - p]).dropLast = (h - x0) :: D := List.dropLast_concat
+  have e2' : ((y0 :: YM) ++ [z]).dropLast = y0 :: YM := List.dropLast_concat
+  have e3 : ((y0 :: YM) ++ [z]).isEmpty = false := rfl
+  have hz : ∀ v : Rat, (YM ++ [z]).zip (D ++ [v]) = YM.zip D ++ [(z, v)] := fun v => by
+    rw [List.zip_append hDl.symm]; rfl
+  have hCz : ∀ (u v : Rat), ((y0 :: YM) ++ [z]).zip ((u : Rat) :: (D ++ [v])) = (y0, u) :: (YM.zip D ++ [(z, v)]) := by
+    intro u v; rw [List.cons_append, List.zip_cons_cons, hz]
+  have c1 : (r - p) * ((b - p) / (r - p)) = b - p := by field_simp
+  have c2 : (h - x0) * ((h - a) / (h - x0)) = h - a := by field_simp
+  have hDpos : ∀ t : Rat, 0 ≤ t → h - a + (D.sum + t) ≠ 0 := by
+    intro t ht; have : 0 < h - a := by linarith
+    exact ne_of_gt (by linarith)
+  unfold dot
+  generalize ((y0 :: YM) ++ [z]) = C at e2' e3 hCz ⊢
+  generalize (((h - x0) :: D) ++ [r - p]) = Lg at e1 e2 ⊢
+  have hb' : 0 ≤ b - p := by linarith
+  by_cases hb0 : b - p = 0 <;> by_cases ha0 : x0 < a
+  · simp [hbr, n1, n2, n3, hb0, ha0, scaleFirst, e1, e2, e2', e3, List.sum_append, c1, c2]
+    have := hDpos 0 le_rfl
+    simpa using this
+  · have : x0 = a := le_antisymm hx0 (not_lt.mp ha0)
+    subst this
+    simp [hbr, n1, n2, hb0, scaleFirst, e1, e2, e2', e3, List.sum_append, c1]
+    have := hDpos 0 le_rfl
+    simpa using this
+  · simp [hbr, n1, n2, n3, hb0, ha0, scaleFirst, e1, e2, e2', e3, hCz, List.sum_append, c1, c2]
+    exact ⟨hDpos (b - p) hb', by congr 1 <;> ring⟩
+  · have : x0 = a := le_antisymm hx0 (not_lt.mp ha0)
+    subst this
+    simp [hbr, n1, n2, hb0, scaleFirst, e1, e2, e2', e3, hCz, List.sum_append, c1]
+    exact ⟨hDpos (b - p) hb', by congr 1 <;> ring⟩
+
+private theorem codeT_B1 (x0 p y0 a b h : Rat) (M YM : List Rat) (hM : M.length = YM.length)
+    (hh : (M ++ [p])[0]? = some h) (hx0 : x0 ≤ a) (hah : a < h) (hbp : p ≤ b)
+    (hD : 0 ≤ (diffs (M ++ [p])).sum) :
+    resampleBody (x0 :: (M ++ [p])) (y0 :: YM) true a b ((0 + 1 : Nat) : Int) ((YM.length + 1 + 1 : Nat) : Int)
+      = some ((y0 * (h - a) + dot YM (diffs (M ++ [p]))) / ((h - a) + (diffs (M ++ [p])).sum)) := by
+  have hx0h : x0 < h := lt_of_le_of_lt hx0 hah
+  unfold resampleBody
+  have d1 : ((0 + 1 : Nat) : Int) - 1 = ((0 : Nat) : Int) := by simp
+  have d2 : ((YM.length + 1 + 1 : Nat) : Int) + 1 = ((YM.length + 3 : Nat) : Int) := by push_cast; ring
+  have d3 : ((YM.length + 1 + 1 : Nat) : Int) - 1 = ((YM.length + 1 : Nat) : Int) := by push_cast; ring
+  have d4 : (((x0 :: (M ++ [p])).length : Nat) : Int) - 1 = ((M.length + 1 : Nat) : Int) := by simp
+  have d5 : (if ((YM.length + 1 + 1 : Nat) : Int) ≤ ((M.length + 1 : Nat) : Int) then
+      ((YM.length + 1 + 1 : Nat) : Int) else ((M.length + 1 : Nat) : Int)) = ((YM.length + 1 : Nat) : Int) := by
+    rw [if_neg (by rw [hM]; push_cast; omega), hM]
+  simp only [d1, d2, d3, d4, d5, pySlice_nat, pyIndex_nat]
+  have g2 : (x0 :: (M ++ [p]))[YM.length + 1]? = some p := by rw [← hM]; simp
+  have g3 : (x0 :: (M ++ [p]))[0 + 1]? = some h := by simpa using hh
+  have g0 : (x0 :: (M ++ [p]))[0]? = some x0 := rfl
+  have t1 : List.take (min (YM.length + 1 + 1) (y0 :: YM).length - min 0 (y0 :: YM).length)
+      (List.drop (min 0 (y0 :: YM).length) (y0 :: YM)) = y0 :: YM := by simp
+  have t2 : List.take (min (YM.length + 3) (x0 :: (M ++ [p])).length - min 0 (x0 :: (M ++ [p])).length)
+      (List.drop (min 0 (x0 :: (M ++ [p])).length) (x0 :: (M ++ [p]))) = x0 :: (M ++ [p]) := by
+    rw [← hM]; simp
+  simp only [t1, t2, g2, g3, g0, diffs_cons_head x0 h (M ++ [p]) hh]
+  generalize diffs (M ++ [p]) = D at hD ⊢
+  have n2 : h - x0 ≠ 0 := sub_ne_zero.mpr (ne_of_gt hx0h)
+  have n3 : h - a ≠ 0 := sub_ne_zero.mpr (ne_of_gt hah)
+  have c2 : (h - x0) * ((h - a) / (h - x0)) = h - a := by field_simp
+  have hDpos : h - a + D.sum ≠ 0 := by
+    have : 0 < h - a := by linarith
+    exact ne_of_gt (by linarith)
+  unfold dot
+  by_cases ha0 : x0 < a
+  · simp [not_lt.mpr hbp, n2, n3, ha0, scaleFirst, c2]
+    exact hDpos
+  · have : x0 = a := le_antisymm hx0 (not_lt.mp ha0)
+    subst this
+    simp [not_lt.mpr hbp, n2, scaleFirst]
+    exact hDpos
+
+/-- **every output cell gets the length-weighted mean of the input values it covers** -/
+theorem resample_cell_mean (a b : Rat) (hab : a < b) : ∀ (X Y : List Rat), X.Pairwise (· < ·) →
+    X.length = Y.length + 1 → (∀ x, X.head? = some x → x ≤ a) → (∃ w ∈ X, a < w) →
+    resampleCell X Y true a b = some (cellW a b X Y / cellLen a b X)
+  | [], _, _, hl, _, _ => by simp at hl
+  | [x0], _, _, _, h0, hw => by
+    obtain ⟨w, hw1, hw2⟩ := hw
+    simp at hw1; subst hw1
+    exact absurd (h0 w rfl) (not_le.mpr hw2)
+  | _ :: _ :: _, [], _, hl, _, _ => by simp at hl
+  | x0 :: x1 :: xs, y0 :: ys, hs, hl, h0, hw => by
+    have hx : x0 ≤ a := h0 x0 rfl
+    obtain ⟨hhd, hs'⟩ := List.pairwise_cons.mp hs
+    have h01 : x0 < x1 := hhd x1 (by simp)
+    have hl' : (x1 :: xs).length = ys.length + 1 := by simpa using hl
+    have hspecW : cellW a b (x0 :: x1 :: xs) (y0 :: ys) = y0 * ovr a b x0 x1 + cellW a b (x1 :: xs) ys := rfl
+    have hspecL : cellLen a b (x0 :: x1 :: xs) = ovr a b x0 x1 + cellLen a b (x1 :: xs) := rfl
+    by_cases h1 : x1 ≤ a
+    · have hw' : ∃ w ∈ x1 :: xs, a < w := by
+        obtain ⟨w, hw1, hw2⟩ := hw
+        rcases List.mem_cons.mp hw1 with rfl | hw1
+        · exact absurd hx (not_le.mpr hw2)
+        · exact ⟨w, hw1, hw2⟩
+      have ih := resample_cell_mean a b hab (x1 :: xs) ys hs' hl' (fun x hx' => by simp at hx'; subst hx'; exact h1) hw'
+      have ea : dN (x0 :: x1 :: xs) a = dN xs a + 2 := by
+        rw [dN_cons_le _ _ _ hx, dN_cons_le _ _ _ h1]
+      have eb : dN (x0 :: x1 :: xs) b = dN xs b + 2 := by
+        rw [dN_cons_le _ _ _ (by linarith), dN_cons_le _ _ _ (by linarith)]
+      have ea' : dN (x1 :: xs) a = dN xs a + 1 := dN_cons_le _ _ _ h1
+      have eb' : dN (x1 :: xs) b = dN xs b + 1 := dN_cons_le _ _ _ (by linarith)
+      rw [resampleCell_eqT, ea', eb'] at ih
+      rw [resampleCell_eqT, ea, eb, body_shift, ih]
+      have : ovr a b x0 x1 = 0 := by unfold ovr rmax rmin; split_ifs <;> linarith
+      rw [hspecW, hspecL, this]; simp
+    · have h1' : a < x1 := not_le.mp h1
+      have hTgt : ∀ x ∈ x1 :: xs, a < x := by
+        intro x hx'
+        rcases List.mem_cons.mp hx' with rfl | hx''
+        · exact h1'
+        · exact lt_trans h1' ((List.pairwise_cons.mp hs').1 x hx'')
+      have ea : dN (x0 :: x1 :: xs) a = 0 + 1 := by
+        rw [dN_cons_le _ _ _ hx, dN_all_gt _ _ hTgt]
+      obtain ⟨Mp, R, hT, hMp, hR⟩ := split_sorted b (x1 :: xs) hs'
+      have eb : dN (x0 :: x1 :: xs) b = Mp.length + 1 := by
+        rw [dN_cons_le _ _ _ (by linarith), hT, dN_append, dN_all_le _ _ hMp, dN_all_gt _ _ hR]
+      rcases List.eq_nil_or_concat Mp with hnil | ⟨M, p, hMp'⟩
+      · subst hnil
+        simp only [List.nil_append] at hT
+        have hb1 : b < x1 := hR x1 (by rw [← hT]; simp)
+        have hzW := cellW_zero a b (x1 :: xs) ys hs' (fun x hx' => le_of_lt (hR x (by rw [← hT]; exact hx')))
+        have hzL := cellLen_zero a b (x1 :: xs) hs' (fun x hx' => le_of_lt (hR x (by rw [← hT]; exact hx')))
+        have hov : ovr a b x0 x1 = b - a := by unfold ovr rmax rmin; split_ifs <;> linarith
+        rw [resampleCell_eqT, ea, eb, hspecW, hspecL, hzW, hzL, hov]
+        show resampleBody _ _ true a b ((0 + 1 : Nat) : Int) ((0 + 1 : Nat) : Int) = _
+        rw [codeT_A x0 x1 y0 a b xs ys hx hab hb1]
+        have : b - a ≠ 0 := sub_ne_zero.mpr (ne_of_gt hab)
+        congr 1
+        rw [add_zero, add_zero]; field_simp
+      · rw [List.concat_eq_append] at hMp'
+        subst hMp'
+        have hpb : p ≤ b := hMp p (by simp)
+        have hMa : ∀ x ∈ M, a ≤ x := fun x hx' => le_of_lt (hTgt x (by rw [hT]; simp [hx']))
+        have hx1mem : x1 ∈ M ++ [p] := by
+          have h0' : (M ++ [p] ++ R)[0]? = some x1 := by rw [← hT]; rfl
+          cases M with
+          | nil => simp at h0'; simp [h0']
+          | cons m M' => simp at h0'; simp [h0']
+        have hx1b : x1 ≤ b := hMp x1 hx1mem
+        have hov0 : ovr a b x0 x1 = x1 - a := by unfold ovr rmax rmin; split_ifs <;> linarith
+        have hh0 : (M ++ [p])[0]? = some x1 := by
+          have h0' : (M ++ [p] ++ R)[0]? = some x1 := by rw [← hT]; rfl
+          cases M with
+          | nil => simpa using h0'
+          | cons m M' => simpa using h0'
+        have hsMp : (M ++ [p]).Pairwise (· < ·) := by
+          have : (M ++ [p] ++ R).Pairwise (· < ·) := by rw [← hT]; exact hs'
+          exact (List.pairwise_append.mp this).1
+        have hD := diffs_sum_nonneg (M ++ [p]) hsMp
+        cases R with
+        | nil =>
+          simp only [List.append_nil] at hT
+          have hlen : M.length = ys.length := by
+            have := congrArg List.length hT; simp at this hl'; omega
+          have hsp := specW_mid a b p [] [] M ys hlen (by rw [← hT]; exact hs') hMa hMp
+          simp only [List.append_nil, cellW, cellLen, add_zero] at hsp
+          rw [resampleCell_eqT, ea, eb, hspecW, hspecL, hov0, hT, hsp.1, hsp.2]
+          simp only [List.length_append, List.length_singleton, hlen]
+          rw [codeT_B1 x0 p y0 a b x1 M ys hlen hh0 hx h1' hpb hD]
+        | cons r R' =>
+          have hT' : x1 :: xs = M ++ p :: r :: R' := by rw [hT]; simp
+          have hbr : b < r := hR r (by simp)
+          have hlen : ys.length = M.length + 1 + R'.length := by
+            have := congrArg List.length hT'; simp at this hl'; omega
+          obtain ⟨YM, Yz, hys, hYM⟩ : ∃ YM Yz, ys = YM ++ Yz ∧ YM.length = M.length :=
+            ⟨ys.take M.length, ys.drop M.length, (List.take_append_drop _ _).symm, by simp; omega⟩
+          cases Yz with
+          | nil => simp at hys; subst hys; omega
+          | cons z YR =>
+            subst hys
+            have hsT : (M ++ p :: r :: R').Pairwise (· < ·) := by rw [← hT']; exact hs'
+            have hpr : p < r := by
+              have := List.pairwise_append.mp hsT
+              exact (List.pairwise_cons.mp this.2.1).1 r (by simp)
+            have hsp := specW_mid a b p (r :: R') (z :: YR) M YM hYM.symm hsT hMa hMp
+            have hap : a ≤ p := le_of_lt (hTgt p (by rw [hT']; simp))
+            have hsR := (List.pairwise_cons.mp (List.pairwise_append.mp hsT).2.1).2
+            have hzW := cellW_zero a b (r :: R') YR hsR (fun x hx' => le_of_lt (hR x hx'))
+            have hzL := cellLen_zero a b (r :: R') hsR (fun x hx' => le_of_lt (hR x hx'))
+            have hov : ovr a b p r = b - p := by unfold ovr rmax rmin; split_ifs <;> linarith
+            have hcW : cellW a b (p :: r :: R') (z :: YR) = z * (b - p) := by simp only [cellW, hzW, hov, add_zero]
+            have hcL : cellLen a b (p :: r :: R') = b - p := by simp only [cellLen, hzL, hov, add_zero]
+            rw [resampleCell_eqT, ea, eb, hspecW, hspecL, hov0, hT', hsp.1, hsp.2, hcW, hcL]
+            simp only [List.length_append, List.length_singleton]
+            rw [← hYM, codeT_B2 x0 p r y0 z a b x1 M R' YM YR hYM.symm hh0 hx h1' hpr hpb hbr hD]
+            congr 1; ring
+
+/-- **`resampleStepwise(avg=True)` gives, for every output cell, the length-weighted mean of the input values
+it covers**: `Σ_j y_j·|cell ∩ bin_j| / Σ_j |cell ∩ bin_j|` — for any strictly increasing input mesh and any
+strictly increasing output mesh whose cells start inside the input range. -/
+theorem resample_avg_is_mean (xin yin xout : List Rat) (hs : xin.Pairwise (· < ·))
+    (hl : xin.length = yin.length + 1) (hso : xout.Pairwise (· < ·))
+    (hlo : ∀ x0, xin.head? = some x0 → ∀ x ∈ xout, x0 ≤ x)
+    (hhi : ∀ c ∈ cellsOf xout, ∃ w ∈ xin, c.1 < w) :
+    resample xin yin xout true
+      = some ((cellsOf xout).map (fun c => cellW c.1 c.2 xin yin / cellLen c.1 c.2 xin)) := by
+  unfold resample
+  rw [if_neg (by simp [hl])]
+  apply mapM_some
+  intro c hc
+  obtain ⟨h1, h2, _⟩ := cells_mem xout hso c hc
+  exact resample_cell_mean c.1 c.2 h1 xin yin hs hl (fun x hx => hlo x hx c.1 h2) (hhi c hc)
+
+/-- non-vacuity / what the model computes: the recorded F25 input, averaged -/
+example : resample [0, 7/2, 9, 35/2, 37/2] [6, 11/2, 6, -1/2] [0, 3, 11/2, 21/2, 13, 37/2] true
+    = some [6, 28/5, 113/20, 6, 53/11] := by decide +kernel
 
 /-- non-vacuity of `Remeshable` (hypothesis of atoms_conserved, integrated_total_conserved, constant_stays_constant,
 peak_is_max, roundtrip_totals): source 0–25–50, destination 0–30–50 -/
